@@ -1031,9 +1031,14 @@ class Gridder(GeospatialGrid):
         if integrated_variables:
             non_segment_idxs = (np.cumsum(count_subsegments + 1) - 1)[:-1]
 
-            all_segment_point_lats_flat = all_subsegment_point_lats[
-                ~np.isnan(all_subsegment_point_lats)
-            ].flatten()
+            # an intersection latitude computed from slope and intercept can leave
+            # [-pi/2, pi/2] by one rounding error when a trajectory point sits on a
+            # pole; the geodesic needs a valid latitude
+            all_segment_point_lats_flat = np.clip(
+                all_subsegment_point_lats[~np.isnan(all_subsegment_point_lats)].flatten(),
+                -np.pi / 2,
+                np.pi / 2,
+            )
             all_segment_point_lons_flat = all_subsegment_point_lons[
                 ~np.isnan(all_subsegment_point_lons)
             ].flatten()
